@@ -15,9 +15,18 @@ fn ord_name(o: u8) -> &'static str {
     ["rlx", "rel", "acq", "acqrel", "sc"][o.min(4) as usize]
 }
 
+thread_local! {
+    static GRANTED: std::cell::Cell<bool> = const { std::cell::Cell::new(false) };
+}
+/// the call under extraction granted exclusive access (or handed the value out)
+fn granted() {
+    GRANTED.with(|g| g.set(true));
+}
+
 /// run f with tracking on; report the events that concern the block at `heap`
 fn record(heap: usize, f: impl FnOnce()) -> Vec<Value> {
     ev::LOG.clear();
+    GRANTED.with(|g| g.set(false));
     f();
     let mut out = vec![];
     // blocks allocated during the call: not yet visible to any other thread, so operations on their counts are
@@ -53,6 +62,9 @@ fn record(heap: usize, f: impl FnOnce()) -> Vec<Value> {
             Ev::Clone { .. } => out.push(json!(["cloneval", 0, "-", 0])),
             _ => {}
         }
+    }
+    if GRANTED.with(|g| g.get()) {
+        out.push(json!(["granted", 0, "-", 0]));
     }
     out
 }
@@ -180,18 +192,21 @@ pub fn run(out_path: &str) {
         uniq!("uniq:get_mut", "Arc::get_mut", |mut h: Arc<A>, k: &mut Keep| {
             if let Some(r) = Arc::get_mut(&mut h) {
                 r.set_val(9);
+                granted();
             }
             k.push(Box::new(h));
         });
         uniq!("uniq:get_mut", "Arc::get_unique", |mut h: Arc<A>, k: &mut Keep| {
             if let Some(r) = Arc::get_unique(&mut h) {
                 (**r).set_val(9);
+                granted();
             }
             k.push(Box::new(h));
         });
         uniq!("uniq:get_mut", "Arc::try_unique", |h: Arc<A>, k: &mut Keep| match Arc::try_unique(h) {
             Ok(mut u) => {
                 (*u).set_val(9);
+                granted();
                 k.push(Box::new(u));
             }
             Err(a) => k.push(Box::new(a)),
@@ -199,6 +214,7 @@ pub fn run(out_path: &str) {
         uniq!("uniq:get_mut", "UniqueArc::try_from", |h: Arc<A>, k: &mut Keep| match UniqueArc::try_from(h) {
             Ok(mut u) => {
                 (*u).set_val(9);
+                granted();
                 k.push(Box::new(u));
             }
             Err(a) => k.push(Box::new(a)),
@@ -207,11 +223,15 @@ pub fn run(out_path: &str) {
             let mut d: Arc<dyn Probe> = h.unsize(Coercion!(to dyn Probe));
             if let Some(r) = Arc::get_mut(&mut d) {
                 r.pset(9);
+                granted();
             }
             k.push(Box::new(d));
         });
         uniq!("uniq:try_unwrap", "Arc::try_unwrap", |h: Arc<A>, k: &mut Keep| match Arc::try_unwrap(h) {
-            Ok(v) => k.push(Box::new(v)),
+            Ok(v) => {
+                granted();
+                k.push(Box::new(v))
+            }
             Err(a) => k.push(Box::new(a)),
         });
         uniq!("uniq:make_mut", "Arc::make_mut", |mut h: Arc<A>, k: &mut Keep| {
@@ -270,6 +290,7 @@ pub fn run(out_path: &str) {
                 t.with_arc_mut(|a| {
                     if let Some(r) = Arc::get_mut(a) {
                         r.header_mut().set_val(9);
+                        granted();
                     }
                 })
             });
@@ -286,6 +307,7 @@ pub fn run(out_path: &str) {
             let evs = record(heap, || {
                 let _ = std::panic::catch_unwind(std::panic::AssertUnwindSafe(|| {
                     h.write(5);
+                    granted();
                 }));
             });
             entry(&mut l, "uniq:get_mut", "Arc<MaybeUninit<T>>::write (deprecated)", if shared { "shared" } else { "unique" }, evs);
@@ -296,6 +318,7 @@ pub fn run(out_path: &str) {
             let evs = record(heap, || {
                 let _ = std::panic::catch_unwind(std::panic::AssertUnwindSafe(|| {
                     s_.as_mut_slice()[0].write(5);
+                    granted();
                 }));
             });
             entry(&mut l, "uniq:get_mut", "Arc<[MaybeUninit<T>]>::as_mut_slice (deprecated)", if shared { "shared" } else { "unique" }, evs);
